@@ -125,12 +125,7 @@ def territory(ref, ode=None) -> list:
     """KNOWN C defect classes the model is in: syntactic classes of modelgen.c_unsafe + 'bool-constant' (sympy folded a
     comparison of the loaded model to a bare true / false)"""
     terr = set(ref.c_unsafe())
-    if ode is not None:
-        try:
-            if any(has_bool_const(a.expr) for a in tuple(ode.intermediates) + tuple(ode.state_derivatives)):
-                terr.add("bool-constant")
-        except Exception:  # noqa: BLE001
-            pass
+    # 'bool-constant' (true / false without <stdbool.h>) was repaired in gotranx (fix: commit 7834552): no longer a territory
     return sorted(terr)
 
 
